@@ -311,6 +311,9 @@ def rand_user_line(r):
         return ind + "\\t literal \\n backslashes \\\n"
     if kind == 10:
         return ind + "// USER_HEADER {{USER_ }}}\n"
+    if kind == 12:
+        # characters str.splitlines() treats as line boundaries but file iteration does not
+        return ind + "page" + r.choice(["\x0c", "\x0b", "\x1c", "\x1d", "\x1e", "\x85", "\u2028", "\u2029"]) + "break " + camel(r, 1) + "\n"
     if kind == 11:
         # cleans to a plausible tag key without containing the prefix itself
         return ind + "/// {{{ USER_%s }}}\n" % r.choice(["HEADER", "IMPORTS", "LOCALS", "INCLUDES", "PUBLIC_MEMBERS"])
